@@ -20,6 +20,7 @@ import NdnVerif.C18.LemmasConv
 import NdnVerif.C18.LemmasLoss
 import NdnVerif.C18.LemmasAsync
 import NdnVerif.C18.AsyncFacts
+import NdnVerif.C18.LemmasSynced
 namespace Ndn.C18
 
 /-- the regenerated constant is the protocol's infinity metric -/
@@ -356,5 +357,45 @@ theorem pending_work_drains (st : St) :
 open Async in
 example : drains (run (init 5) [.change, .change]) [.runFib, .runFib, .runNotify, .runNotify, .runSend, .runSend] = true ∧
     work (run (init 5) [.change, .change]) = 18 := by decide
+
+/-! ### from quiescent links to shortest paths
+
+  `Net.SyncedLink net u w` is the routing-table content of the state `quiescent_link_is_synced` establishes for a
+  link: the costs u holds via w are the ones `ribUpdate` derives from the advertisement w serves now. -/
+
+/-- a network is a fixed point of all exchanges exactly when every link is synced -/
+theorem fixed_point_iff_all_links_synced (g : Graph) (net : Net) (ok : NetOK g net) :
+    IsFixedPoint g net ↔ ∀ u w, g.adj u w → net.SyncedLink u w := by
+  constructor
+  · intro fp u w ha
+    obtain ⟨hu, hw, huw⟩ := ok.adjValid u w ha
+    exact fixed_point_is_synced g net ok.wf fp u w ha hu hw huw
+  · exact synced_is_fixed_point g net ok.wf
+
+/-- **Quiescence means shortest paths.**  In a network that fits the topology and in which on every link the
+    neighbour has applied the advertiser's current advertisement (what `quiescent_link_is_synced` /
+    `synced_after_heartbeat` give for every link once nothing is pending anywhere), every router holds, for every
+    router at hop distance k < 16, cost k with a next hop on a shortest path (smallest key among those), and
+    advertises no unreachable router — no fairness assumption on the schedule is left. -/
+theorem quiescent_network_is_shortest_path (g : Graph) (net : Net) (ok : NetOK g net)
+    (synced : ∀ u w, g.adj u w → net.SyncedLink u w) :
+    (∀ u v k, u < net.length → v < net.length → IsDist g u v k → k < 16 →
+      net.best u (net.idOf v) = k ∧
+      (1 ≤ k → ∃ w, g.adj u w ∧ net.nextHop u (net.idOf v) = net.idOf w ∧ IsDist g w v (k - 1) ∧
+        ∀ w', g.adj u w' → IsDist g w' v (k - 1) → net.idOf w ≤ net.idOf w')) ∧
+    (∀ u v, v < net.length → (∀ k, ¬ Reach g k u v) → ∀ a ∈ net.advertOf u, a.dest ≠ net.idOf v) := by
+  have fp := synced_is_fixed_point g net ok.wf synced
+  exact ⟨fun u v k hu hv hd hk => fixed_point_is_shortest_path g net ok fp u v k hu hv hd hk,
+         fun u v hv hun => fixed_point_unreachable_withdrawn g net ok fp u v hv hun⟩
+
+/-- processing the neighbour's current advertisement is what makes a link synced (`ribUpdate` is a function of
+    the advertisement it reads), so 16 fair rounds end with every link synced -/
+example : ∃ net, NetOK exGraph net ∧ ∀ u w, exGraph.adj u w → net.SyncedLink u w := by
+  obtain ⟨net, ok, fp⟩ : ∃ net, NetOK exGraph net ∧ IsFixedPoint exGraph net :=
+    ⟨_, converges_within_rounds exGraph (Net.start exIds) exStart_ok (List.replicate 16 exRound)
+      (fun r hr e he => by rw [List.eq_of_mem_replicate hr] at he; exact he)
+      (fun r hr u w ha => by rw [List.eq_of_mem_replicate hr]; exact ha)
+      (by simp)⟩
+  exact ⟨net, ok, (fixed_point_iff_all_links_synced exGraph net ok).1 fp⟩
 
 end Ndn.C18
